@@ -182,6 +182,16 @@ CLAIMED.update({
    technique="Coq proof (permutation invariance of the shape loop) + vm_compute correspondence + multi-process hash-seed / permutation / relabelling differential on /repo",
    ref="4 (C09)"),
 })
+CLAIMED.update({
+ "C17": dict(
+   text="Partial by design (SPARQL evaluation is rdflib's; ?this solutions of targets and function results enter the model as data obtained by running the declared queries directly). Coq proofs: the advanced focus set is exactly the core focus nodes plus the ?this solutions of every custom target, without duplicates, and the core set when advanced is off; "
+        "the SHACL-AF parameter order (ascending sh:order when every parameter has one, else by local name) contains every parameter exactly once and is ascending; the i-th argument of a call is bound to the i-th parameter of that order; a function's result is the first projected value of the first solution; "
+        "sh:expression reports a value node exactly when its node expression (sh:this, constants, paths, nested function calls over a function table) does not evaluate to the single value true. "
+        "On the real code: parameter order of the loader, expression constraints, SPARQL targets and parameterised target types, functions called from sh:sparql and from rule node expressions vs direct evaluation of the declared queries; advanced=False ignores all of them.",
+   note=BASE_NOTE + "Function calls inside SPARQL text are checked differentially only. sh:optional parameters, union/intersection/filterShape expressions and JS are not generated. Holds after fix commits 1ab4a4d and the unbound-result fix in /repo.",
+   technique="Coq proof (sorting/permutation of parameters, set characterisations) over oracle data + vm_compute correspondence + differential against direct query evaluation",
+   ref="4 (C17)"),
+})
 NOT_YET = {}
 ALL = ["C%02d" % i for i in range(1, 21)]
 REASONS = {}
